@@ -18,8 +18,8 @@ import (
 type c08Case struct {
 	Prog    *actlang.Prog `json:"prog"`
 	Pos     int           `json:"pos"`
-	Routing string        `json:"routing"` // none | aen | aeb
-	Via     string        `json:"via"`     // walk | crew
+	Routing string        `json:"routing"`         // none | aen | aeb
+	Via     string        `json:"via"`             // walk | crew
 	Shape   int           `json:"shape,omitempty"` // what "emit m2" emits: index into c08Shapes
 }
 
